@@ -10,7 +10,7 @@
 //                               then                 compile
 //                               -> "ok <ngeom> <nbody> <nq> <nmat> <nmesh>" | "error <msg>"
 //   state <qpos...>             set qpos (exactly nq values), mj_forward -> "ok" | "error <msg>"
-//   scene                       -> per geom: type body weld group matid galpha malpha rbound size[3] xpos[3] xmat[9]  (%.17g)
+//   scene                       -> per geom: type body weld group matid galpha malpha contype conaffinity body_bvhadr rbound size[3] xpos[3] xmat[9]  (%.17g)
 //   ray px py pz vx vy vz flg_static bodyexclude mask       mask = 6 chars 0/1 or "-" (geomgroup == NULL)
 //                               -> "R <dist> <geomid> N <dist> <n0> <n1> <n2> G <dist> | <ngeom> ; <elim> <dist_i> <n0> <n1> <n2> ; ..."
 //                                  R: mj_ray(geomid, normal=NULL)   N: mj_ray(geomid=NULL, normal)   G: mj_ray(geomid=NULL, normal=NULL)
@@ -67,7 +67,7 @@ static int rdbl(const char* t, double* out) {
   char* end; *out = strtod(t, &end); return *end == 0;
 }
 static int rint_(const char* t, long* out) {
-  if (!t || !*t) return 0;
+  if (!t || !*t || *t == '+') return 0;
   char* end; *out = strtol(t, &end, 10); return *end == 0;
 }
 // mask token: "-" -> NULL, else exactly mjNGROUP chars of 0/1
@@ -214,8 +214,9 @@ int main(void) {
       printf("%d", M->ngeom);
       for (int i = 0; i < M->ngeom; i++) {
         int b = M->geom_bodyid[i], mt = M->geom_matid[i];
-        printf(" ; %d %d %d %d %d %.9g %.9g %.17g", M->geom_type[i], b, M->body_weldid[b], M->geom_group[i], mt,
-               (double)M->geom_rgba[4 * i + 3], mt >= 0 ? (double)M->mat_rgba[4 * mt + 3] : -1.0, M->geom_rbound[i]);
+        printf(" ; %d %d %d %d %d %.9g %.9g %d %d %d %.17g", M->geom_type[i], b, M->body_weldid[b], M->geom_group[i], mt,
+               (double)M->geom_rgba[4 * i + 3], mt >= 0 ? (double)M->mat_rgba[4 * mt + 3] : -1.0,
+               M->geom_contype[i], M->geom_conaffinity[i], M->body_bvhadr[b], M->geom_rbound[i]);
         for (int k = 0; k < 3; k++) printf(" %.17g", M->geom_size[3 * i + k]);
         for (int k = 0; k < 3; k++) printf(" %.17g", D->geom_xpos[3 * i + k]);
         for (int k = 0; k < 9; k++) printf(" %.17g", D->geom_xmat[9 * i + k]);
